@@ -13,6 +13,7 @@ fn factory(model: &str) -> Option<Factory> {
         "watermark" => Box::new(|c: &Value| Box::new(models::watermark::WM::new(c)) as Box<dyn Model>),
         "undo" => Box::new(|c: &Value| Box::new(models::undo::UF::new(c)) as Box<dyn Model>),
         "indexes" => Box::new(|c: &Value| Box::new(models::indexes::IXWrap::new(c)) as Box<dyn Model>),
+        "agenda" => Box::new(|c: &Value| Box::new(models::agenda::AG::new(c)) as Box<dyn Model>),
         _ => return None,
     })
 }
@@ -47,6 +48,7 @@ fn main() {
                 None => 2,
             }
         }
+        Some("fireloop") => models::fireloops::cmd_fireloop(&args),
         Some("kbstress") => models::kb::cmd_stress(&args),
         _ => {
             eprintln!("usage: vh replay|replay-one <model> <file> [opts]");
